@@ -65,7 +65,9 @@ def _field_arguments(attribute: Attribute) -> dict[str, Any] | None:
 
 
 @cache
-def _dataclass_parameters(class_: Class) -> list[Parameter]:
+def _dataclass_parameters(class_: Class) -> list[tuple[str, Parameter | None]]:
+    # Each field is returned with its name; `None` stands for a (pseudo-)field that is not an `__init__` parameter
+    # (`ClassVar`, `field(init=False)`) but still overrides a field of the same name declared in a parent dataclass.
     # Fetch `@dataclass` arguments if any.
     dec_args = _dataclass_arguments(class_.decorators)
 
@@ -73,7 +75,7 @@ def _dataclass_parameters(class_: Class) -> list[Parameter]:
     kw_only = dec_args.get("kw_only") == "True"
 
     # Iterate on current attributes to find parameters.
-    parameters = []
+    parameters: list[tuple[str, Parameter | None]] = []
     for member in class_.members.values():
         if member.is_attribute:
             member = cast("Attribute", member)
@@ -87,12 +89,13 @@ def _dataclass_parameters(class_: Class) -> list[Parameter]:
             # - @property
             # - @cached_property
             # - ClassVar annotation
-            if "property" in member.labels or (
-                # TODO: It is better to explicitly check for `ClassVar`, but
-                # `Visitor.handle_attribute` unwraps it from the annotation.
-                # Maybe create `internal_labels` and store "classvar" in there.
-                "class-attribute" in member.labels and "instance-attribute" not in member.labels
-            ):
+            if "property" in member.labels:
+                continue
+            # TODO: It is better to explicitly check for `ClassVar`, but
+            # `Visitor.handle_attribute` unwraps it from the annotation.
+            # Maybe create `internal_labels` and store "classvar" in there.
+            if "class-attribute" in member.labels and "instance-attribute" not in member.labels:
+                parameters.append((member.name, None))
                 continue
 
             # Start of keyword-only parameters.
@@ -107,6 +110,7 @@ def _dataclass_parameters(class_: Class) -> list[Parameter]:
 
             # Parameter not added to `__init__`, skip it.
             if field_args.get("init") == "False":
+                parameters.append((member.name, None))
                 continue
 
             # Determine parameter kind.
@@ -124,27 +128,34 @@ def _dataclass_parameters(class_: Class) -> list[Parameter]:
 
             # Add parameter to the list.
             parameters.append(
-                Parameter(
+                (
                     member.name,
-                    annotation=member.annotation,
-                    kind=kind,
-                    default=default,
-                    docstring=member.docstring,
+                    Parameter(
+                        member.name,
+                        annotation=member.annotation,
+                        kind=kind,
+                        default=default,
+                        docstring=member.docstring,
+                    ),
                 ),
             )
 
     return parameters
 
 
-def _reorder_parameters(parameters: list[Parameter]) -> list[Parameter]:
-    # De-duplicate, overwriting previous parameters.
-    params_dict = {param.name: param for param in parameters}
+def _reorder_parameters(parameters: list[tuple[str, Parameter | None]]) -> list[Parameter]:
+    # De-duplicate, overwriting previous parameters: like in `dataclasses`, a field
+    # re-declared in a subclass keeps its original position but takes the new definition,
+    # and disappears from `__init__` when the new definition is not an `__init__` parameter.
+    params_dict = dict(parameters)
 
     # Re-order, putting positional-only in front and keyword-only at the end.
     pos_only = []
     pos_kw = []
     kw_only = []
     for param in params_dict.values():
+        if param is None:
+            continue
         if param.kind is ParameterKind.positional_only:
             pos_only.append(param)
         elif param.kind is ParameterKind.keyword_only:
@@ -156,7 +167,7 @@ def _reorder_parameters(parameters: list[Parameter]) -> list[Parameter]:
 
 def _set_dataclass_init(class_: Class) -> None:
     # Retrieve parameters from all parent dataclasses.
-    parameters = []
+    parameters: list[tuple[str, Parameter | None]] = []
     try:
         mro = class_.mro()
     except ValueError:
@@ -172,15 +183,15 @@ def _set_dataclass_init(class_: Class) -> None:
     if not _dataclass_decorator(class_.decorators):
         return
 
-    # With `init=False` no `__init__` is generated for this class (its fields
-    # still count for the `__init__` methods of dataclasses inheriting from it).
-    if _dataclass_arguments(class_.decorators).get("init") == "False":
-        return
-
     logger.debug("Handling dataclass: %s", class_.path)
 
     # Add current class parameters.
     parameters.extend(_dataclass_parameters(class_))
+
+    # With `init=False` no `__init__` is generated for this class (its fields, computed
+    # above, still count for the `__init__` methods of dataclasses inheriting from it).
+    if _dataclass_arguments(class_.decorators).get("init") == "False":
+        return
 
     # Create `__init__` method with re-ordered parameters.
     init = Function(
